@@ -135,7 +135,12 @@ def rx(e):
   if isinstance(e, Size):
     return 'Size(%s)' % rx(e.e)
   if isinstance(e, If):
-    return '(if %s then %s else %s)' % (rx(e.cond), rx(e.a), rx(e.b))
+    # an `if` in else position is written as the documented `else if` chain (one implication node)
+    parts, cur = [], e
+    while isinstance(cur, If):
+      parts.append('if %s then %s' % (rx(cur.cond), rx(cur.a)))
+      cur = cur.b
+    return '(%s else %s)' % (' else '.join(parts), rx(cur))
   if isinstance(e, Call):
     return '%s(%s)' % (e.pred, render_args(e.args, e.nargs))
   if isinstance(e, RangeE):
